@@ -103,14 +103,18 @@ def gen_cases(tier, r):
     parts = all_parts()
     keys = list(parts)
     keys += [' T.NS , s.Reverse', 'R.we.REV,i', 't . sn', 'i,s,r,t', 's,r,t', 't.ns,s.rev', 's.rev,t.sn.rev,r.ew',
-             'r.we,r.ew', 't,t.rev', 'i.rev', 'I.NUM.REVERSE']
+             'r.we,r.ew', 't,t.rev', 'i.rev', 'I.NUM.REVERSE',
+             's,t,s', 'i,s,i', 'r.rev,s,r.rev', 'S.Reverse, r.we, s.REV', 't.ns,r,t.ns', 's,s', 't.rev,i,t.rev,s']   # a key component may recur: every occurrence is a pass
     bad = ['x', 'q.ns', 't.ew', 'r.ns', 's.ns', 'i.we', '', 't,,s', 't,', ',', 'x.ns', 'foo.ns', 'north', 't.nsx', 'xt', 't.foo',
            't.ns.bar', 'u.num', '.rev', 'rev', '5', 't;s', 'a,b', 'e.w']
     keys += bad
     n2 = 40 if tier == 'quick' else 400
     for _ in range(n2):
-        k = r.randint(2, 3)
-        keys.append(','.join(r.choice(parts) for _ in range(k)))
+        k = r.randint(2, 4)
+        ks = [r.choice(parts) for _ in range(k)]
+        if r.random() < 0.3:
+            ks.append(ks[0])
+        keys.append(','.join(ks))
     lists = [[], ['154n97w14'], UNIVERSE, UNIVERSE[::-1], ['XXXzXXXzXX', '___z___z__'], ['2n70w01', 'XXXzXXXz03', '3n65w02'],
              ['154n97w14'] * 3 + ['154n97w01'] * 2]
     nl = 12 if tier == 'quick' else 120
